@@ -111,6 +111,9 @@ class World(object):
     if fault_plan:
       memdb.FAULT_PLAN.update({int(k): v for k, v in fault_plan.items()})
     state.database.files.clear()
+    # shutdownModifyUpdateSpeed() assigns settings.MIN_TIMESTAMP_LAG = 0: Settings has no __setattr__, so that creates
+    # an instance attribute shadowing the dict item for the rest of the process - drop it as well
+    self.settings.__dict__.pop('MIN_TIMESTAMP_LAG', None)
     self.settings['MIN_TIMESTAMP_LAG'] = self.orig_lag
     self.reactor.running = True
     del self.signals[:]
@@ -434,6 +437,19 @@ class World(object):
         _p.close(p)
       except Exception:
         pass
+    # break the reference cycles of this run explicitly (scheduler <-> closures <-> history <-> cache): several hundred
+    # thousand schedules run in one process
+    sc.on_point = sc.on_switch = None
+    sc.policy = None
+    for t in sc.threads:
+      t.fn = None
+      t.thread = None
+    sc.by_ident.clear()
+    lock.sched = None
+    try:
+      del cache.drain_metric
+    except AttributeError:
+      pass
     return h
 
 
